@@ -319,6 +319,19 @@ def TEv.str (written : Nat) : TEv → String
 def evsStr (l : List TEv) (written : Nat := 0) : String :=
   if l.isEmpty then "-" else Proto.joinWith " " (l.map (TEv.str written))
 
+/-- what a register-level trace of the real `MmioTransport` shows of an event list: the pure
+    `requires_legacy_layout` query is invisible, the guest page size is written only by the legacy
+    interface, and dropping the transport is a write of 0 to the status register -/
+def mmioView (legacy : Bool) (l : List TEv) : List TEv :=
+  l.filterMap fun
+    | .lay .legacyQ => none
+    | .pageSize v => if legacy then some (.pageSize v) else none
+    | .dropped => some (.status 0)
+    | e => some e
+
+def viewOf (a : Proto.Args) (l : List TEv) : List TEv :=
+  if a.str "view" "model" == "mmio" then mmioView (a.bool "legacy") l else l
+
 def paramsOfArgs (a : Proto.Args) : Params :=
   { offered := a.nat "offered", legacy := a.bool "legacy", failAt := a.nat "fail",
     cfgFail := if a.str "cfg" "ok" == "ok" then 0 else 1,
@@ -340,15 +353,15 @@ def handle (op : String) (a : Proto.Args) : String :=
     let o := construct i (paramsOfArgs a)
     let w := negotiated (supportedOf i) (a.nat "offered")
     match o.result with
-    | .ok _ => s!"{evsStr o.evs w} => ok"
-    | .error e => s!"{evsStr o.evs w} => err {e.str}"
+    | .ok _ => s!"{evsStr (viewOf a o.evs) w} => ok"
+    | .error e => s!"{evsStr (viewOf a o.evs) w} => err {e.str}"
   | "drop" =>
     let o := construct i (paramsOfArgs a)
     match o.result, driverAt i with
     | .ok acts, some (d, _) =>
       let fb := if a.nat "fbpages" == 0 then none
         else some (a.nat "fbregion", a.nat "fbpages", (negotiated (supportedOf i) (a.nat "offered")).testBit bitAccessPlatform)
-      evsStr (actsEvs (withFrameBuffer d acts fb))
+      evsStr (viewOf a (actsEvs (withFrameBuffer d acts fb)))
     | _, _ => "not-constructed"
   | "gated" =>
     match gopOfStr (a.str "op") with
